@@ -255,8 +255,23 @@ def selfcheck(ctx, T):
            "__radd__": operator.add, "__rmul__": operator.mul, "__rsub__": operator.sub, "__rtruediv__": operator.truediv,
            "__rpow__": operator.pow}
     mism, ncases, nontrivial = [], 0, 0
-    vals = [-3.5, -1.0, -0.25, 0.75, 2.0, 5.5]
+    vals = [-3.5, -1.0, -0.25, 0.75, 2.0, 5.5, 0.1, -0.3]          # dyadic and non-dyadic operands
     for name, params, term, lines in ot.defs:
+        if name == "_wrap_scalar":
+            # value semantics of the scalar embedding: a Python number becomes a constant of the tensor's own floating dtype
+            for a in vals + [3, 1e-30]:
+                for dt in (np.float64, np.float32):
+                    ncases += 1
+                    nontrivial += 1
+                    try:
+                        r = sg.Tensor(np.array([1.0], dtype=dt))._wrap_scalar(a)
+                        ok = r.data.dtype == dt and float(r.data) == float(np.asarray(a, dtype=dt)) and close(float(np.float64(r.data)) if dt == np.float64 else float(a), ot.evaluate(term, {params[0]: float(a)}), 1e-12)
+                    except Exception as ex:
+                        ok, r = False, ex
+                    if not ok:
+                        mism.append({"overload": name, "operand": a, "tensor_dtype": np.dtype(dt).name, "implementation": repr(getattr(r, "data", r)),
+                                     "expected": "0-d constant of the tensor's dtype holding the scalar"})
+            continue
         for a in vals:
             others = [None] if len(params) == 1 else ([0.5, 2.0, 3.0] if name == "__rpow__" else ([-2, -1, 0, 1, 2, 3] if name == "__pow__" else vals))
             for b in others:
@@ -290,11 +305,12 @@ def selfcheck(ctx, T):
                         except Exception as ex:
                             mism.append({"overload": name, "variant": label, "operands": [a, b], "raised": repr(ex)})
                             continue
-                    if not close(r, v, rel=1e-6 if label.endswith("number") or label.startswith("number") else 1e-12):
+                    if not close(r, v, rel=1e-12):
                         mism.append({"overload": name, "variant": label, "operands": [a, b], "translator_IR_value": v, "implementation": r})
     ctx.tie("py2coq/operator overloads vs real Tensors", "translator-selfcheck", ncases, nontrivial, mism,
-            note="forward value of each expansion (Tensor op Tensor at 1e-12; a Python-number operand is wrapped into a float32 "
-                 "Tensor by the library, compared at 1e-6); skipped: %s" % ", ".join(s[0] for s in ot.skipped))
+            note="forward value of each expansion on float64 Tensors (Tensor op Tensor, Tensor op Python number, number op Tensor, "
+                 "ndarray op Tensor; dyadic and non-dyadic numbers) at relative 1e-12, and Tensor._wrap_scalar's value/dtype; skipped: %s"
+                 % ", ".join(s[0] for s in ot.skipped))
 
 
 # ================================================================================================
@@ -494,6 +510,33 @@ def oracle_vjp(ctx, part):
     return found
 
 
+def oracle_scalar_operands(ctx):
+    """float64 tensor (op) non-dyadic Python scalar must equal the NumPy float64 evaluation of the overload's expansion
+    bit for bit (the scalar must not be rounded to float32 on the way).  A forward-value matter (C05/C10) that the overload theorems
+    of C01 lean on; kept here because the expansions are this package's."""
+    from lib import impl
+    np, sg = impl.np, impl.synapgrad
+    x = np.array([0.7, -1.3, 2.9, 1e-3, 123.456], dtype=np.float64)
+    cases = [("x * 0.1", lambda t: t * 0.1, x * 0.1), ("x + 0.1", lambda t: t + 0.1, x + 0.1),
+             ("x / 3.0", lambda t: t / 3.0, x * (3.0 ** -1)), ("2.5 - x", lambda t: 2.5 - t, (x * -1.0) + 2.5),
+             ("0.3 / x", lambda t: 0.3 / t, (x ** -1) * 0.3), ("0.1 * x", lambda t: 0.1 * t, x * 0.1), ("x - 0.1", lambda t: t - 0.1, x + (-0.1))]
+    found = 0
+    for label, f, ref in cases:
+        try:
+            out = f(sg.Tensor(x.copy()))
+            got = np.asarray(out.data)
+            bad = got.dtype != np.float64 or not np.array_equal(got, ref)
+            obs = {"dtype": str(got.dtype), "value": got.tolist()}
+        except Exception as ex:
+            bad, obs = True, {"raised": repr(ex)}
+        if bad:
+            found += bool(ctx.witness("tensor.scalar-operand", "scalar-precision", {"expression": label, "x": x.tolist(), "dtype": "float64"},
+                                      {"numpy_float64_of_the_expansion": ref.tolist()}, obs,
+                                      note="a Python-number operand of a float64 tensor must enter the expansion as a float64 constant"))
+    ctx.extra.setdefault("oracle", {})["scalar_operands"] = {"expressions": [c[0] for c in cases], "witnesses": found}
+    return found
+
+
 def tolerances(np, dtype):
     return (1e-5, 1e-7) if dtype == np.float64 else (1e-3, 1e-4)
 
@@ -521,7 +564,7 @@ def judge_vjp(ctx, impl, o, arrays, g, dtype, worst=None):
     # reference for "the derivative of the function the forward pass computed" and finite differences decide alone
     d_v = None
     if tout is not None:
-        d_v = disagree(np, out, tout, *((1e-6, 1e-9) if dtype == np.float64 else (1e-3, 1e-4)))   # gross semantic differences only (a Python-number operand is wrapped as float32 by the library: ~1e-8 relative)
+        d_v = disagree(np, out, tout, *((1e-6, 1e-9) if dtype == np.float64 else (1e-3, 1e-4)))   # gross semantic differences only
         if d_v:
             tg = None
     for k, a in enumerate(arrays):
@@ -662,6 +705,8 @@ def run_part(ctx, props_file, part=None, oracle=True):
     if oracle:
         if part in ("C01", "C02"):
             oracle_vjp(ctx, part)
+            if part == "C01":
+                oracle_scalar_operands(ctx)
         elif part == "C09":
             oracle_c09(ctx)
     return len(ctx.broken) == n_broken and len(ctx.witnesses) == n_wit
@@ -704,6 +749,10 @@ def replay_witness(ctx, data):
     if data.get("kind") != "failing-input":
         print(json.dumps(data.get("broken"), indent=1)); return 1
     inp = data["input"]
+    if data["class"] == "scalar-precision":
+        n = oracle_scalar_operands(ctx)
+        print("replay scalar operands: %s" % ("still fails: %s" % json.dumps(ctx.witnesses[-1]["observed"])[:300] if n else "passes now"))
+        return 1 if n else 0
     dtype = np.dtype(inp["dtype"]).type
     if data["class"] == "large-magnitude" or data["class"] == "raises":
         o = [o for o in c09_ops() if o["name"] == inp["op"]][0]
